@@ -677,6 +677,19 @@ func (p *Prog) factoryOpts(c *Ctx, f *Func, g *Graph, call *ast.CallExpr) {
 	info := f.Pkg.TypesInfo
 	construct := "gRPC server factory options"
 	ov, _ := identObj(info, call.Args[0]).(*types.Var)
+	// a temporary that is assigned once, from the options variable (the shape an
+	// inlined `s.serverOptions()` leaves behind)
+	for i := 0; i < 3 && ov != nil; i++ {
+		d := p.singleDef(f, ov)
+		if d == nil {
+			break
+		}
+		src, isV := identObj(info, ast.Unparen(d)).(*types.Var)
+		if !isV || src.IsField() {
+			break
+		}
+		ov = src
+	}
 	callN := g.NodeOf(call)
 	if ov == nil || callN == nil {
 		c.R.Violate("R-TLS/use", p.Pos(call), f.Name, construct, "the options passed to the server factory are not a local variable", nil)
